@@ -203,8 +203,9 @@ def run(pid, tier):
             continue
         first = next(e for e in t if e["key"] == v["key"])
         diff = sorted(set(v["src"].split("+")) ^ set(first["src"].split("+")))
-        ctx.violation("extension-not-inert:%s:effective=%s :: %s" % ("+".join(diff), v["key"], name or psw(text)),
-                      {"document": text, "enabled_a": first["src"], "enabled_b": v["src"], "trigger_syntax_of": o["trig"]})
+        # which subsets disagree depends on the subset sample: it goes into the detail, not into the signature
+        ctx.violation("extension-not-inert :: %s" % (name or psw(text)),
+                      {"document": text, "effective_set": v["key"], "enabled_a": first["src"], "enabled_b": v["src"], "trigger_syntax_of": o["trig"]})
     ctx.ev.cov["evaluations"] = sum(len(j[2]) for j in jobs)
     ctx.ev.cov["distinct_nontrivial"] = nontriv
     ctx.ev.parts["documents_checked_against_plain_commonmark"] = plain_checked
